@@ -1,4 +1,6 @@
 import BareModel.Syntax
+import BareModel.Line
+import BareModel.ExprScan
 import BareModel.Gen.Reorder
 
 /-!
@@ -67,5 +69,113 @@ def flat : Expr → List (Expr ⊕ BinOp)
 
 /-- an operand of a chain (what `_parse_unary_expression` returns): never a bare binary node -/
 def IsOperand (e : Expr) : Prop := rootOp e = none
+
+/-! ## text level (mirror of `parse_expression`, `_parse_binary_expression`, `_parse_unary_expression`)
+
+The result type is the Python control flow made explicit: `ok (expr, next_text)` or `error (error text, error.line)`
+where `error.line` is the remaining text the `BareScriptParserError` was raised with (`parse_expression` computes the
+column from its length).  The functions are total by fuel; `fuelMsg` is the error text of an exhausted fuel, and
+`C02.fuel_sufficient` shows that it never occurs with fuel = text length. -/
+
+open ExprScan
+
+abbrev Res (α : Type) := Except (String × List Char) α
+
+def fuelMsg : String := "<out of fuel>"
+
+/-- the tail of `_parse_binary_expression` (parser.py: match a binary operator, parse the right unary operand, insert
+with `insR`, continue with the rest) as a loop; `pu` is `_parse_unary_expression` -/
+def chainLoop (pu : List Char → Res (Expr × List Char)) : Nat → Expr → List Char → Res (Expr × List Char)
+  | 0, l, t =>
+    match scanBinOp t with
+    | none => .ok (l, t)
+    | some _ => .error (fuelMsg, t)
+  | n + 1, l, t =>
+    match scanBinOp t with
+    | none => .ok (l, t)
+    | some (op, rt) =>
+      match pu rt with
+      | .error e => .error e
+      | .ok (r, nt) => chainLoop pu n (insR l op r) nt
+
+/-- `_parse_binary_expression(expr_text)`: the first unary operand, then the chain -/
+def binaryWith (pu : List Char → Res (Expr × List Char)) (n : Nat) (text : List Char) : Res (Expr × List Char) :=
+  match pu text with
+  | .error e => .error e
+  | .ok (l, t) => chainLoop pu n l t
+
+/-- the `while True` argument loop of a function call; `pb` is `_parse_binary_expression` -/
+def argsLoop (pb : List Char → Res (Expr × List Char)) : Nat → List Expr → List Char → Res (List Expr × List Char)
+  | 0, _, t => .error (fuelMsg, t)
+  | n + 1, args, t =>
+    match scanClose t with
+    | some r => .ok (args, r)
+    | none =>
+      match (if args.isEmpty then some t else scanComma t) with
+      | none => .error ("Syntax error", t)
+      | some t1 =>
+        match pb t1 with
+        | .error e => .error e
+        | .ok (a, nt) => argsLoop pb n (args ++ [a]) nt
+
+/-- the non-recursive alternatives of `_parse_unary_expression`, in its order: number, string, string (double quotes),
+variable, variable (brackets) -/
+def parseAtom (text : List Char) : Res (Expr × List Char) :=
+  match scanNumber text with
+  | some (q, r) => .ok (.number q, r)
+  | none =>
+  match scanString '\'' text with
+  | some (s, r) => .ok (.string (String.ofList s), r)
+  | none =>
+  match scanString '"' text with
+  | some (s, r) => .ok (.string (String.ofList s), r)
+  | none =>
+  match scanVariable text with
+  | some (n, r) => .ok (.variable (Name.ofString (String.ofList n)), r)
+  | none =>
+  match scanVariableEx text with
+  | some (n, r) => .ok (.variable (Name.ofString (String.ofList n)), r)
+  | none => .error ("Syntax error", text)
+
+/-- `_parse_unary_expression`: group, unary operator, function call, then the atoms -/
+def parseUnary : Nat → List Char → Res (Expr × List Char)
+  | 0, text =>
+    if (scanGroupOpen text).isSome || (scanUnaryOp text).isSome || (scanFuncOpen text).isSome then .error (fuelMsg, text)
+    else parseAtom text
+  | fuel + 1, text =>
+    match scanGroupOpen text with
+    | some gt =>
+      match binaryWith (parseUnary fuel) fuel gt with
+      | .error e => .error e
+      | .ok (e, nt) =>
+        match scanClose nt with
+        | none => .error ("Unmatched parenthesis", text)
+        | some r => .ok (.group e, r)
+    | none =>
+    match scanUnaryOp text with
+    | some (op, ut) =>
+      match parseUnary fuel ut with
+      | .error e => .error e
+      | .ok (e, nt) => .ok (.unary op e, nt)
+    | none =>
+    match scanFuncOpen text with
+    | some (name, argText) =>
+      match argsLoop (binaryWith (parseUnary fuel) fuel) fuel [] argText with
+      | .error e => .error e
+      | .ok (args, r) => .ok (.function (Name.ofString (String.ofList name)) args, r)
+    | none => parseAtom text
+
+/-- `_parse_binary_expression(expr_text)` -/
+def parseBinary (fuel : Nat) (text : List Char) : Res (Expr × List Char) := binaryWith (parseUnary fuel) fuel text
+
+/-- `parse_expression` on a character list: trailing non-blank text is a 'Syntax error' at that text; the column of any
+error is `len(expr_text) - len(error.line) + 1` -/
+def parseExprL (cs : List Char) : Except ParseErr Expr :=
+  match parseBinary cs.length cs with
+  | .ok (e, nt) => if (skipWs nt).isEmpty then .ok e else .error ⟨"Syntax error", cs.length - nt.length + 1⟩
+  | .error (msg, line) => .error ⟨msg, cs.length - line.length + 1⟩
+
+/-- `parse_expression(expr_text)` -/
+def parseExpr (s : String) : Except ParseErr Expr := parseExprL s.toList
 
 end ExprParse
